@@ -103,6 +103,19 @@ def _warn_key(w):
                                       "/".join(str(n) for n in nums))
 
 
+def _lexrep_key(r):
+    ty, sub = r.get("type"), r.get("subtype")
+    if ty == "normalization":
+        return f"0:{enc_str(r['original'])}:{enc_str(str(r['normalized']))}:{r['line']}:{r['column']}"
+    if ty == "spec_violation" and sub == "wrong_case":
+        return f"1:{enc_str(r['original'])}:{enc_str(r['correct'])}:{r['line']}:{r['column']}"
+    if ty == "spec_violation" and sub == "boundary_missing":
+        return f"2:{enc_str(r['original'])}:-:{r['line']}:{r['column']}"
+    if ty == "repair_candidate":
+        return f"3:{enc_str(r['original'])}:{enc_str(r['repaired'])}:{r['line']}:{r['column']}"
+    return None
+
+
 def impl_result(text: str, strict: bool):
     """-> canonical result string in the model's output format, plus the neutral doc (or None)."""
     from octave_mcp.core.lexer import LexerError
@@ -187,4 +200,7 @@ def compare(texts, strict=True, with_warnings=False):
             iw = ";".join(k for k in (_warn_key(w) for w in warns) if k)
             if iw != mwarns:
                 bad.append((t, "WARNS " + iw, "WARNS " + mwarns))
+            ir = ";".join(k for k in (_lexrep_key(w) for w in warns) if k)
+            if ir != reps:
+                bad.append((t, "LEXREPS " + ir, "LEXREPS " + reps))
     return bad, n_in, n_out, results
